@@ -71,7 +71,8 @@ class DynamicSchedulingFromPlan(Scheduling):
         self.alternate = 0
         temporary_resources = cluster.get_available_resources()
         max_allocations_iteration = len(temporary_resources)
-        for task in sorted(task_pool, key=lambda x: x.est):
+        # Ties in est are broken by id: set order differs between runs
+        for task in sorted(task_pool, key=lambda x: (x.est, x.id)):
             if len(allocations) >= max_allocations_iteration:
                 break
             if (
